@@ -26,7 +26,9 @@ CONSTANTS Type,        \* full name of the message type in Schema
           Global,      \* enabled whole-object operations, subset of {"reset","rt","merge","clone","equal","checkinit"}
           MaxSteps,
           NObj,
-          BadUtf8      \* TRUE: string values also include ill-formed UTF-8 (C13)
+          BadUtf8,     \* TRUE: string values also include ill-formed UTF-8 (C13)
+          WireRecs,    \* wire records (byte strings); "uwire" steps unmarshal every concatenation of up to MaxRecs of them (C17)
+          MaxRecs
 
 VARIABLES objs, hist,
           cache       \* implementation-shaped observation state (C16): per object "none" | "fresh" | "stale":
@@ -63,6 +65,10 @@ FieldSteps(o, at, t, n) ==
           \cup (IF IsMsgKind(fd.kind) THEN {base @@ [op |-> "mut"]} ELSE {})
 
 Objs == 0..(NObj - 1)
+\* every concatenation of 1..MaxRecs wire records
+RECURSIVE Concats(_)
+Concats(n) == IF n = 0 THEN {<<>>} ELSE {x \o y : x \in WireRecs, y \in Concats(n - 1)} \cup Concats(n - 1)
+WireInputs == Concats(MaxRecs) \ {<<>>}
 \* unknown-field payloads: a varint, a length-delimited, a fixed32 and a group record on numbers no corpus type knows
 UnknownSets == {<<192, 196, 7, 1>>, <<194, 196, 7, 2, 8, 1>>, <<197, 196, 7, 1, 2, 3, 4, 192, 196, 7, 0>>, <<195, 196, 7, 8, 5, 196, 196, 7>>}
 \* malformed inputs: truncated tag/varint, truncated length, bad wire type, field number 0, stray end group
@@ -90,6 +96,10 @@ Steps ==
   \cup (IF "ubad" \in Global
         THEN {[op |-> "unmarshal", o |-> a, b |-> x, merge |-> g, partial |-> TRUE, discard |-> FALSE, nolazy |-> FALSE, limit |-> 0] :
                  a \in Objs, x \in BadInputs, g \in BOOLEAN}
+        ELSE {})
+  \cup (IF "uwire" \in Global
+        THEN {[op |-> "unmarshal", o |-> a, b |-> x, merge |-> g, partial |-> TRUE, discard |-> FALSE, nolazy |-> z, limit |-> 0] :
+                 a \in Objs, x \in WireInputs, g \in BOOLEAN, z \in BOOLEAN}
         ELSE {})
   \cup (IF "size" \in Global THEN {[op |-> "size", o |-> o, det |-> FALSE] : o \in Objs} ELSE {})
   \cup (IF "scribble" \in Global THEN {[op |-> "scribble", o |-> o] : o \in Objs} ELSE {})
